@@ -97,6 +97,22 @@ Section Model.
     | _, _ => Err NanErr
     end.
 
+  (* the inputs on which none of the tolerance masks changes the exact algorithm:
+     discr = 0 (exactly parallel) or discr >= SMALL, and the final numerators are 0 or
+     >= SMALL (so sc[sN < SMALL] = 0 / tc[tN < SMALL] = 0 do not truncate) *)
+  Definition off_band (small : T) (a b c d : v3) : bool :=
+    let d1 := vsub b a in
+    let d2 := vsub d c in
+    let ds := vsub a c in
+    let d11 := dot d1 d1 in let d12 := dot d1 d2 in let d22 := dot d2 d2 in
+    let d1s := dot d1 ds in let d2s := dot d2 ds in
+    let discr := d11 * d22 - d12 * d12 in
+    let q := stage3 d11 d12 d1s (stage2 d11 d1s (stage1 small d11 d12 d22 d1s d2s)) in
+    let '(sN, sD, tN, tD) := q in
+    (leb discr 0 || negb (ltb discr small))
+    && (leb sN 0 || negb (ltb sN small))
+    && (leb tN 0 || negb (ltb tN small)).
+
   Definition tmin (x y : T) : T := if ltb y x then y else x.
 
   (* SMALL_TOLERANCE = 1e-8 * np.minimum(dot_1_1, np.min(dot_2_2)) *)
@@ -109,6 +125,122 @@ Section Model.
   Definition seg_seg_set (a b : v3) (set : list (v3 * v3)) : list (res (T * v3 * v3 * T * T)) :=
     let small := small_tol a b set in
     map (fun s => seg_seg small a b (fst s) (snd s)) set.
+
+  (* ------------------------------------------------------------------ segment_set *)
+  (* after "fix: distances.segment_set fills the distance matrix and closest points":
+     for every i, segment_segment_set(segment i, segments i+1..) *)
+  Fixpoint segment_set_upper (segs : list (v3 * v3)) : list (list (res (T * v3 * v3 * T * T))) :=
+    match segs with
+    | [] => []
+    | s :: rest => seg_seg_set (fst s) (snd s) rest :: segment_set_upper rest
+    end.
+
+  (* entry (i, j) of the returned arrays: (d[i,j]**2, cp[i,j]) *)
+  Definition sset_entry (segs : list (v3 * v3)) (i j : nat) : res (T * v3) :=
+    if Nat.eqb i j then
+      match nth_error segs i with
+      | Some s => Ok (0, vadd (fst s) (vscale (1 / (1 + 1)) (vsub (snd s) (fst s))))
+      | None => Err ValueErr
+      end
+    else if Nat.ltb i j then
+      match nth_error (segment_set_upper segs) i with
+      | Some row => match nth_error row (j - i - 1) with
+                    | Some (Ok (d2, cp1, _, _, _)) => Ok (d2, cp1)
+                    | Some (Err e) => Err e
+                    | None => Err ValueErr
+                    end
+      | None => Err ValueErr
+      end
+    else
+      match nth_error (segment_set_upper segs) j with
+      | Some row => match nth_error row (i - j - 1) with
+                    | Some (Ok (d2, _, cp2, _, _)) => Ok (d2, cp2)
+                    | Some (Err e) => Err e
+                    | None => Err ValueErr
+                    end
+      | None => Err ValueErr
+      end.
+
+  Definition off_band_set (a b : v3) (set : list (v3 * v3)) : bool :=
+    let small := small_tol a b set in
+    forallb (fun s => off_band small a b (fst s) (snd s)) set.
+
+  (* ------------------------------------------------------------- point_in_polygon *)
+  (* geometry_property_checks.point_in_polygon(poly, p, default=False) for one point *)
+  Definition v2 := (T * T)%type.
+  Definition sgnz (x : T) : Z := if ltb 0 x then 1%Z else if ltb x 0 then (-1)%Z else 0%Z.
+  Definition is_zero (x : T) : bool := leb x 0 && leb 0 x.
+  Definition is_zero2 (v : v2) : bool := is_zero (fst v) && is_zero (snd v).
+  Definition vertex_sgn (v : v2) : Z :=
+    let s := sgnz (fst v) in if Z.eqb s 0 then sgnz (snd v) else s.
+  Definition edge_cross (v w : v2) : T := fst v * snd w - snd v * fst w.
+  Definition roll1 {A} (l : list A) : list A :=             (* np.roll(., -1) *)
+    match l with [] => [] | x :: r => r ++ [x] end.
+
+  Fixpoint wind2 (vs ws : list v2) : Z :=                    (* twice the winding number *)
+    match vs, ws with
+    | v :: vs', w :: ws' =>
+        ((if Z.eqb (vertex_sgn w - vertex_sgn v) 0 then 0 else sgnz (edge_cross v w))
+         + wind2 vs' ws')%Z
+    | _, _ => 0%Z
+    end.
+
+  Fixpoint on_active_edge (vs ws : list v2) : bool :=
+    match vs, ws with
+    | v :: vs', w :: ws' =>
+        (Z.eqb (sgnz (edge_cross v w)) 0 && negb (Z.eqb (vertex_sgn w - vertex_sgn v) 0))
+        || on_active_edge vs' ws'
+    | _, _ => false
+    end.
+
+  Definition point_in_polygon (poly : list v2) (p : v2) : bool :=
+    let rel := map (fun v => (fst v - fst p, snd v - snd p)) poly in
+    let nxt := roll1 rel in
+    if existsb is_zero2 rel || existsb is_zero2 nxt then false
+    else if on_active_edge rel nxt then false
+    else negb (Z.eqb (wind2 rel nxt) 0).
+
+  (* --------------------------------------------------------------- points_polygon *)
+  Definition ez : v3 := (0, 0, 1).
+
+  (* np.argmin over the point-segment results (first minimum); any NaN wins *)
+  Fixpoint argmin_ps (l : list (res (T * v3))) (best : T * v3) : res (T * v3) :=
+    match l with
+    | [] => Ok best
+    | Err e :: _ => Err e
+    | Ok r :: l' => argmin_ps l' (if ltb (fst r) (fst best) then r else best)
+    end.
+
+  Definition edges (poly : list v3) : list (v3 * v3) := combine poly (roll1 poly).
+
+  (* points_polygon(p, poly, tol) for one point: (d**2, closest point, in_poly).
+     [ptol] is the default tolerance 1e-5 of project_plane_matrix. *)
+  Definition points_polygon (ptol tol : T) (p : v3) (poly : list v3) : res (T * v3 * bool) :=
+    let center := mean T ops poly in
+    let polyc := map (fun v => vsub v center) poly in
+    let pc := vsub p center in
+    match plane_matrix_pts T ops polyc ptol ez with
+    | Err e => Err e
+    | Ok rot =>
+        let poly_rot := map (mv T ops rot) polyc in
+        if negb (forallb (fun v => ltb (nabs T ops (vz v)) tol) poly_rot) then Err AssertErr
+        else
+          let pr := mv T ops rot pc in
+          let poly_xy := map (fun v => (vx v, vy v)) poly_rot in
+          if point_in_polygon poly_xy (vx pr, vy pr) then
+            Ok (vz pr * vz pr,
+                vadd center (mv T ops (mT T rot) (vx pr, vy pr, 0)), true)
+          else
+            match map (fun e => point_segment p (fst e) (snd e)) (edges poly) with
+            | [] => Err ValueErr
+            | Err e :: _ => Err e
+            | Ok r :: l =>
+                match argmin_ps l r with
+                | Err e => Err e
+                | Ok (d2, cp) => Ok (d2, cp, false)
+                end
+            end
+    end.
 End Model.
 
 (* ------------------------------------------------ comparison with numpy output *)
@@ -135,3 +267,18 @@ Fixpoint agree_ss_list (model : list (res (Q * v3 Q * v3 Q * Q * Q))) (outs : li
 
 Definition agree_ss (a b : v3 Q) (set : list (v3 Q * v3 Q)) (outs : list (res (list Q))) : bool :=
   agree_ss_list (seg_seg_set Q QO a b set) outs.
+
+(* segment_set: every entry of the distance matrix and of the closest-point array *)
+Definition agree_sset_entry (segs : list (v3 Q * v3 Q)) (i j : nat) (out : res (list Q)) : bool :=
+  match sset_entry Q QO segs i j, out with
+  | Ok (d2, cp), Ok (dist :: cpl) => close (dist * dist) d2 && close_list cpl (v3l cp)
+  | Err e, Err e' => err_eqb e e'
+  | _, _ => false
+  end.
+
+Definition agree_ppoly (p : v3 Q) (poly : list (v3 Q)) (out : res (list Q)) : bool :=
+  match points_polygon Q QO (1 # 100000) (1 # 100000) p poly, out with
+  | Ok (d2, cp, _), Ok (dist :: cpl) => close (dist * dist) d2 && close_list cpl (v3l cp)
+  | Err e, Err e' => err_eqb e e'
+  | _, _ => false
+  end.
